@@ -322,7 +322,14 @@ pub fn random_edit(prop: &str, rng: &mut Rng, world: &mut World) -> Option<J> {
             if domain_c03 || prop == "C08" {
                 return None;
             }
-            let s = rng.pick(&srcs).clone();
+            let mut s = rng.pick(&srcs).clone();
+            if prop == "C09" && rng.chance(1, 2) {
+                // a plain file that a command reported and that is also one of its order-only inputs
+                let both: Vec<String> = world.proj.steps.iter().flat_map(|st| st.extra_reads.iter().filter(|f| st.oos.contains(f)).cloned().collect::<Vec<_>>()).filter(|f| srcs.contains(f)).collect();
+                if !both.is_empty() {
+                    s = rng.pick(&both).clone();
+                }
+            }
             if s.ends_with(".in") {
                 return None;
             }
@@ -409,11 +416,11 @@ pub fn random_edit(prop: &str, rng: &mut Rng, world: &mut World) -> Option<J> {
             for _ in 0..k {
                 let h = format!("h{}.h", rng.below(if allow_missing { 6 } else { 4 }));
                 // several spellings of one file, duplicates, overlap with declared inputs
-                let spelled = match rng.below(5) {
+                let spelled = match rng.below(if prop == "C09" { 7 } else { 5 }) {
                     0 => format!("./{}", h),
                     1 => format!("inc/../{}", h),
                     2 if !s.ins.is_empty() => s.ins[0].clone(),
-                    3 if !s.oos.is_empty() && world.st.disk.contains_key(&s.oos[0]) && !rel.producer.contains_key(&s.oos[0]) => s.oos[0].clone(),
+                    3 | 5 | 6 if !s.oos.is_empty() && world.st.disk.contains_key(&s.oos[0]) && !rel.producer.contains_key(&s.oos[0]) => s.oos[0].clone(),
                     _ => h,
                 };
                 new.push(spelled);
